@@ -192,12 +192,19 @@ def explore(tier, prop, passes=None, templates=None):
     res["validator"] = []
     for args in VALIDATE[prop][tier]:
         tv = time.time()
-        p = subprocess.run([v] + list(args), capture_output=True, text=True)
+        # the validator enumerates on all cores; under memory / thread pressure it can die before printing anything (seen once with three other
+        # heavy jobs on the machine): that is not a verdict, so it is retried - a run that prints its summary is never retried
+        for attempt in range(3):
+            p = subprocess.run([v] + list(args), capture_output=True, text=True)
+            if p.returncode == 0 or p.stdout.strip():
+                break
+            log("[%s] validator %s died without output (exit %s): %s - retrying" % (prop, " ".join(args), p.returncode, p.stderr.strip()[-300:]))
+            time.sleep(20)
         res["validator"].append({"args": list(args), "summary": p.stdout.strip().split("\n")[-1] if p.stdout.strip() else "", "exit": p.returncode,
                                  "wall_s": round(time.time() - tv, 1)})
         log("[%s] validator %s: %s (%.1fs)" % (prop, " ".join(args), res["validator"][-1]["summary"], time.time() - tv))
         if p.returncode != 0:
-            res["inconclusive"].append("validator: the environment stubs or the grammar oracle disagree with real syn: " + p.stdout[-800:])
+            res["inconclusive"].append("validator: the environment stubs or the grammar oracle disagree with real syn (or the validator died): " + (p.stdout[-800:] or p.stderr[-400:]))
     mod = E.Module(b["ll"])
     mode = MODE[prop]
     if passes is None:
